@@ -397,8 +397,12 @@ def run(cx):
         f = [(x["name"], x["ty"]) for x in rs["variants"][0]["fields"]]
         ob.require(f == [("status", "u16"), ("headers", hm)], "RawResponseHeader/fields", f"RawResponseHeader fields {f}", rs["path"])
         for a in (rq, rs):
-            attrs = [at for x in a["variants"][0]["fields"] for at in x["attrs"]] + a["attrs"]
-            ob.require(not [at for at in attrs if "serde" in at], f"{a['path']}/serde-attrs", f"{a['path']} carries serde attributes {attrs}", a["path"])
+            # (the compiler drops derive-helper attributes while lowering, so they are read from the definition's source lines)
+            ty_at, f_at = source_helper_attrs(cx.repo or "/repo", a)
+            ob.require(not ty_at and not f_at, f"{a['path']}/serde-attrs", f"{a['path']} carries serde attributes {ty_at} {f_at}: rename / default / skip / (de)serialize_with change what travels or run extra code on untrusted input", a["path"])
+            # ... and `with`-style hooks show up as wrapper types inside the derived impls
+            nested = sorted({p_.rsplit("::", 1)[-1] for p_ in prog.adts if f"for {a['path']}>" in p_})
+            ob.require(set(nested) <= {"__Field", "__FieldVisitor", "__Visitor"}, f"{a['path']}/serde-hooks", f"derived serde impls of {a['path']} contain {nested} (a custom (de)serialisation hook)", a["path"])
             for tr in ("serde_core::ser::Serialize", "serde_core::de::Deserialize", "serde::ser::Serialize", "serde::de::Deserialize"):
                 pass
             ims = [im for im in prog.impls if im["self_ty"] == a["path"] and im["trait"] and im["trait"].split("::")[-1] in ("Serialize", "Deserialize")]
